@@ -70,6 +70,10 @@ class C06Monitor(object):
         costless = (sim.cfg.get("comm") is None or sim.cfg["comm"]["kind"] == "zero") and not feed.has("bidoffer")
         if any(w != w for w in weights.values()) or base != base:
             return
+        if target.root.bankrupt:
+            # the costs of the rebalance itself took the (tiny) equity below zero: the book was liquidated inside the call
+            sim.incon("rebalance_ended_in_bankruptcy")
+            return
         self.judged += 1
         sim.fire("rebalance_judged")
         scale = abs(base) + sum(abs(v[0]) for v in ctx["cur"].values()) + 1.0
